@@ -157,6 +157,33 @@ def _trim(choices):
     return c
 
 
+def guarded(execute, prop=None):
+    """wrap a harness so that an exception escaping it (from the code under test through an API call the harness makes,
+    or from an oracle that meets a shape of behaviour it was not written for) becomes a reported result with a replay,
+    instead of killing the whole exploration"""
+    def run(ch, cfg):
+        try:
+            return execute(ch, cfg)
+        except ReplayDivergence:
+            raise
+        except Exception as e:  # noqa
+            import traceback
+            tb = traceback.extract_tb(e.__traceback__)
+            inner = tb[-1] if tb else None
+            where = "?"
+            origin = "check"
+            for fr in tb:
+                if "/onl/" in fr.filename:
+                    origin = "code-under-test"
+            if inner is not None:
+                where = "%s:%s" % (inner.filename.split("/")[-1], inner.name)
+            r = Result()
+            r.digest = ("exception", type(e).__name__, where)
+            r.bad("%s.noraise" % (prop or "check"), "unexpected-%s-in-%s@%s" % (type(e).__name__, origin, where), repr(e)[:300])
+            return r
+    return run
+
+
 def run_one(execute, cfg, prefix, budget=None, record=False):
     ch = Chooser(prefix, budget, record)
     res = execute(ch, cfg)
